@@ -50,6 +50,16 @@ def writable(T):
     return True
 
 
+def non_nil(T):
+    """statically certain not to be nil"""
+    k = T[0]
+    if k in ("int", "bin", "str", "fn"):
+        return True
+    if k == "tup":
+        return bool(T[1]) or len(T[2]) > 0
+    return False
+
+
 def ast_type(T):
     k = T[0]
     if k == "int":
@@ -615,7 +625,7 @@ class Gen:
         chosen = self.r.sample(labelled, k)
         fields, irr = [], True
         for l, t in chosen:
-            if mode == "scope" and l not in binds and self.chance(0.5):
+            if mode == "scope" and l not in binds and non_nil(t) and self.chance(0.5):
                 binds[l] = t
                 fields.append(l)
             else:
@@ -627,7 +637,9 @@ class Gen:
         return A.PPartial(name, *fields), irr
 
     def star_pattern(self, sc, T, mode, binds):
-        if mode != "scope" or any(l in binds for l, _ in T[2] if l):
+        # (fields that may be nil are left to explicit sub-patterns: known finding bound-variable-loses-nil)
+        if mode != "scope" or any(l in binds for l, _ in T[2] if l) or \
+                any(l and not non_nil(t) for l, t in T[2]):
             return A.PWILD, True
         for l, t in T[2]:
             if l:
@@ -997,8 +1009,17 @@ def _pat_names(p, binders, pins):
             _pat_names(a, binders, pins)
 
 
-def known_pattern(prog):
-    """the key of a known finding whose trigger pattern occurs in the program, or None"""
+def _erase_names(v):
+    if isinstance(v, dict) and v.get("k") == "tup":
+        nm = v["name"]
+        return {"k": "tup", "name": nm[nm.index("("):] if "(" in nm else "", "fs": [_erase_names(x) for x in v["fs"]]}
+    return v
+
+
+def known_pattern(prog, mismatch=None):
+    """the key of a known finding (see /verif/known_findings.json) whose trigger occurs in the program,
+    or None.  Two triggers are syntactic; two depend on the compiler's static types, which the syntax
+    does not show, and are therefore recognised from the SHAPE of the disagreement as well."""
     keys = []
 
     def roots(d, parent):
@@ -1042,7 +1063,97 @@ def known_pattern(prog):
         for v in node.values():
             tail_in_operand(v, inside)
     tail_in_operand(prog, False)
-    return keys[0] if keys else None
+    if keys:
+        return keys[0]
+    if mismatch is not None:
+        spreads = {"inherit": 0, "any": 0}
+
+        def sp(d, _):
+            if d.get("t") == "tuple" and any(f["f"] == "spread" for f in d["fields"]):
+                spreads["any"] += 1
+                if d["nk"] == "inherit":
+                    spreads["inherit"] += 1
+        A.walk(prog, sp)
+        exp, obs = mismatch.get("exp", []), mismatch.get("obs", {})
+        if spreads["inherit"] and len(exp) == 1 and exp[0].get("t") == "value" and obs.get("t") == "value" \
+                and _erase_names(exp[0]["v"]) == _erase_names(obs["v"]):
+            # the two values differ ONLY in tuple names and the program inherits a name through a spread
+            return "inherit-spread-union-drops-name"
+        if spreads["any"] and len(exp) == 1 and exp[0].get("t") == "value" \
+                and obs.get("t") == "error" and obs.get("e") == "FieldAccessInvalid":
+            return "spread-of-nil-from-nilable-source"
+    return None
+
+
+def wrap_binders(prog):
+    """A semantically equivalent program (per spec.md) in which no variable is bound by a bare binder
+    at the root of a step or by the `(x)` shorthand of a partial pattern: `x = e` becomes `[x] = [e]`,
+    `e =x` becomes `[e] =[x]`, `(x)` becomes `(x: x)`.  The compiler's unsound "a step that succeeded
+    bound only non-nil values" narrowing (known finding bound-variable-loses-nil) does not apply to the
+    rewritten form, so a disagreement that disappears under this rewriting is attributed to it.
+    Returns (program, changed)."""
+    import copy
+    prog = copy.deepcopy(prog)
+    changed = [False]
+
+    def has_tail(node):
+        found = [False]
+
+        def f(d, _):
+            if d.get("t") == "access" and d["src"]["k"] in ("tail", "tailripple"):
+                found[0] = True
+        A.walk(node, f)
+        return found[0]
+
+    def fix(node):
+        if isinstance(node, list):
+            for x in node:
+                fix(x)
+            return
+        if not isinstance(node, dict):
+            return
+        for v in node.values():
+            fix(v)
+        if node.get("p") == "partial":
+            for f in node["fields"]:
+                if not f["pat"]:
+                    f["pat"] = [A.PId(f["label"])]
+                    changed[0] = True
+        if "terms" in node and "pat" in node and "t" not in node:
+            terms = node["terms"]
+            if node["pat"] and node["pat"][0]["p"] == "id" and not has_tail(terms):
+                node["terms"] = [A.Tup("", A.Field(A.Chain(*terms)))]
+                node["pat"] = [A.PTup("", node["pat"][0])]
+                changed[0] = True
+            elif not node["pat"] and terms and terms[-1].get("t") == "match" and terms[-1]["pat"]["p"] == "id" \
+                    and not has_tail(terms):
+                pre = terms[:-1] or [A.Ripple()]
+                node["terms"] = [A.Tup("", A.Field(A.Chain(*pre))), A.Match(A.PTup("", terms[-1]["pat"]))]
+                changed[0] = True
+    fix(prog["steps"])
+    return prog, changed[0]
+
+
+def inherit_variants(prog, limit=4):
+    """programs in which a non-empty subset of the name-inheriting spreads (`a[..., f]`, `~[..., f]`)
+    is replaced by the anonymous form (`[...a, f]`, `[..., f]`): what the implementation computes where
+    the known finding inherit-spread-union-drops-name strikes."""
+    import copy
+    sites = []
+
+    def f(d, _):
+        if d.get("t") == "tuple" and d["nk"] == "inherit":
+            sites.append(d)
+    A.walk(prog, f)
+    n = min(len(sites), limit)
+    out = []
+    for mask in range(1, 2 ** n):
+        for i in range(n):
+            sites[i]["nk"] = "anon" if mask & (1 << i) else "inherit"
+        out.append(copy.deepcopy(prog))
+    for d in sites:
+        d["nk"] = "inherit"
+    return out
 
 
 def _inject_known(g, prog):
@@ -1088,7 +1199,7 @@ def generate_programs(seed, n, features=ALL_FEATURES, min_nodes=5, max_nodes=60)
 # ---------------------------------------------------------------------------
 # exhaustive tiny scope
 # ---------------------------------------------------------------------------
-def tiny_programs(max_nodes=7):
+def tiny_programs(max_nodes=7, focus=False):
     """EVERY program up to max_nodes AST nodes over a tiny grammar: literals 1 / [] / Ok-tag A, `~`,
     `[~, 1]`-like tuples, variable x, matches =1 =x =[] =A[x], blocks with one or two branches and an
     optional consequence, bindings `x = chain`, sequences of up to three steps.  Closed under the
@@ -1097,21 +1208,26 @@ def tiny_programs(max_nodes=7):
 
     atoms = [A.Int(1), A.Int(2), A.NIL, A.Ripple(), A.Var("x"), A.Match(A.PInt(1)), A.Match(A.PId("x")),
              A.Match(A.PNIL), A.Tup("A"), A.Match(A.PTup("A", A.PId("x")))]
+    if focus:
+        # the local-variable bookkeeping class: a value, the flowing value, a variable, a match that
+        # fails on 1, a binder - and blocks / bindings / sequences around them, to a larger size
+        atoms = [A.Int(1), A.Ripple(), A.Var("x"), A.Match(A.PInt(2)), A.Match(A.PId("x"))] + [None] * 5
 
     @functools.lru_cache(maxsize=None)
     def terms(n):
         """all terms with exactly n nodes"""
         out = []
         if n == 1:
-            out += atoms[:9]
-        if n == 2:
+            out += [a for a in atoms[:9] if a is not None]
+        if n == 2 and atoms[9] is not None:
             out.append(atoms[9])
         # tuples [c], [c, c], A[c]
         if n >= 3:
             for c in chains(n - 1):
                 out.append(A.Tup("", c))
-                out.append(A.Tup("A", c))
-        if n >= 5:
+                if not focus:
+                    out.append(A.Tup("A", c))
+        if n >= 5 and not focus:
             for k in range(2, n - 2):
                 for c1 in chains(k):
                     for c2 in chains(n - 1 - k):
@@ -1190,5 +1306,6 @@ def tiny_programs(max_nodes=7):
                         progs.append([c1] + s)
     out = []
     for i, steps in enumerate(progs):
-        out.append({"id": "t%d" % i, "ast": A.Program(steps), "tags": ["tiny"], "known": None})
+        out.append({"id": "%s%d" % ("tf" if focus else "t", i), "ast": A.Program(steps), "tags": ["tiny"],
+                    "known": None})
     return out
